@@ -6,8 +6,8 @@ Local Open Scope Z_scope.
 (* C01: EVERY class of EVERY family of the (regenerated) database is either under one of the five round-trip theorems
    (mbi_roundtrip_plain_crc, _signed_v1, _signed_v21, _encrypted, _bca: 318 of 332 offers on this tree) or is of exactly
    one of two NAMED kinds that are modelled and compared with the implementation on every run but have no round-trip
-   theorem: kind_vx (certificate block Vx, 4 offers; reasons: sub-images replaced by shorter strings, findings C01-F13 /
-   C01-F16) and kind_mcxc (BCA / FCF register objects, 10 offers; reasons: register canonical form is C11/C12's,
+   theorem: kind_vx (certificate block Vx, 4 offers; reason: sub-images replaced by shorter
+   strings - the zero fill is not yet reduced to concatenation) and kind_mcxc (BCA / FCF register objects, 10 offers; reasons: register canonical form is C11/C12's,
    finding C01-F11).  The offers are counted: nothing is left over and nothing is counted twice. *)
 Theorem database_offers_classified :
   (forall c, In c gen_compositions ->
